@@ -43,6 +43,8 @@ class Recorder:
         self.log = []
         self.seen = set()
         self.serial = 0
+        self.arm_handover = False
+        self.handed_back, self.dispatched = threading.Event(), threading.Event()
         self.conns = []          # weakrefs to the SocketConnection objects of this scenario
         self.sites = {c: {x["ord"]: x for x in f["sites"]} for c, f in (info or {"funcs": {}})["funcs"].items()}
         self.hook_raise = set()
@@ -58,6 +60,9 @@ class Recorder:
     def reset(self):
         with self.lock:
             self.log, self.seen, self.conns, self.serial = [], set(), [], 0
+        self.arm_handover = False
+        self.dispatched.set()          # release a worker that may still be parked from the previous scenario
+        self.handed_back, self.dispatched = threading.Event(), threading.Event()
 
     def live_conns(self):
         """server-side connection objects whose socket is still open"""
@@ -202,6 +207,25 @@ def install_wrappers():
         if first and r is not None:
             r.add("close", getattr(self, "_c05_port", None))
     SC.__init__, SC.send, SC.close = __init__, send, close
+    from Pyro5 import svr_threads
+    o_done, o_process = svr_threads.Pool.notify_done, svr_threads.Pool.process
+
+    def notify_done(self, worker):
+        o_done(self, worker)
+        r = CURRENT
+        if r is not None and r.arm_handover and not r.handed_back.is_set():
+            # schedule: the accept loop dispatches the next connection now, this worker thread resumes afterwards
+            r.arm_handover = False
+            ev = r.dispatched
+            r.handed_back.set()
+            ev.wait(3.0)
+
+    def process(self, job):
+        o_process(self, job)
+        r = CURRENT
+        if r is not None and r.handed_back.is_set():
+            r.dispatched.set()
+    svr_threads.Pool.notify_done, svr_threads.Pool.process = notify_done, process
 
 
 # ---------------------------------------------------------------- the target object and its exception zoo
@@ -358,6 +382,40 @@ def get_field(msg, name):
             return int.from_bytes(msg[off:off + w], "big")
 
 
+# signed / unsigned boundary values of a 32-bit length field
+LEN_BOUNDARY = [0, 1, 7, 8, 2 ** 31 - 1, 2 ** 31, 2 ** 32 - 1, 2 ** 32 - 8, 2 ** 32 - 4, 2 ** 32 - 7, 2 ** 32 - 9, 2 ** 32 - 12,
+                2 ** 32 - 16, 2 ** 31 + 8, 2 ** 31 - 8]
+
+
+def ann_message(base, chunks, with_data=True):
+    """message with the header fields of `base`, the given annotation chunks (id, claimed length, actual bytes) and base's
+    data; the OUTER sizes are consistent with the bytes that follow, only chunk lengths may lie"""
+    from Pyro5 import protocol
+    az0 = get_field(base, "asize")
+    data = base[40 + az0:] if with_data else b""
+    ann = b"".join(i + (l % (1 << 32)).to_bytes(4, "big") + d for i, l, d in chunks)
+    m = set_field(set_field(base[:40], "dsize", len(data)), "asize", len(ann))
+    return m + ann + data
+
+
+def chunk_layouts(rng, value):
+    """annotation sections in which one chunk length field holds `value` (an int, or ("rel", delta) = true length + delta,
+    or ("neg", k) = 2**32 - 8 - true length - k)"""
+    out = []
+    for actual, where in ((b"", "only"), (b"wxyz", "only"), (b"wxyz", "second"), (b"wxyz", "first"), (b"0123456789abcdef", "only")):
+        if isinstance(value, tuple):
+            v = len(actual) + value[1] if value[0] == "rel" else (1 << 32) - 8 - len(actual) - value[1]
+        else:
+            v = value
+        bad = (b"EVIL", v, actual)
+        good = (b"GOOD", 3, b"abc")
+        out.append({"only": [bad], "second": [good, bad], "first": [bad, good]}[where])
+    return out
+
+
+CHUNK_VALUES = LEN_BOUNDARY + [("rel", 1), ("rel", -1), ("rel", 8), ("rel", -8), ("neg", 0), ("neg", 8), ("neg", 11)]
+
+
 def boundary_values(rng, msg, name):
     w = [x for x in FIELDS if x[0] == name][0][2]
     cur = get_field(msg, name)
@@ -365,7 +423,7 @@ def boundary_values(rng, msg, name):
     vals = {0, 1, top, top - 1, cur + 1, max(cur - 1, 0), cur ^ 1, (1 << (8 * w - 1)), rng.randrange(top + 1)}
     if name in ("dsize", "asize"):
         other = get_field(msg, "asize" if name == "dsize" else "dsize")
-        vals |= {MAXMSG, MAXMSG + 1, MAXMSG - other, MAXMSG - other + 1, cur + 8, 5, 8, 9}
+        vals |= {MAXMSG, MAXMSG + 1, MAXMSG - other, MAXMSG - other + 1, cur + 8, 5, 7, 8, 9} | set(LEN_BOUNDARY)
     if name == "type":
         vals |= set(range(0, 9))
     if name == "ser":
@@ -396,6 +454,9 @@ def hostile(rng, phase):
     base = base_connect(rng) if phase == "pre" else base_invoke(rng)
     other = base_invoke(rng) if phase == "pre" else base_connect(rng)
     r = rng.random()
+    if r < 0.07:
+        b = rng.choice([base, base, base, other])
+        return "chunklen", ann_message(b, rng.choice(chunk_layouts(rng, rng.choice(CHUNK_VALUES))), with_data=rng.random() < 0.7)
     if r < 0.20:
         name = rng.choice([f[0] for f in FIELDS])
         b = rng.choice([base, base, base, other])
@@ -552,7 +613,7 @@ def gen_scenario(rng, cfg):
     return {"cfg": cfg, "steps": steps}
 
 
-def patient(client, first=3.0, more=25.0):
+def patient(client, first=3.0, more=12.0):
     """read one message; a machine under heavy load may be slow, which is not what the property is about: keep
     waiting for the outstanding answer before calling it missing"""
     r = client.recv_msg(timeout=first)
@@ -561,12 +622,24 @@ def patient(client, first=3.0, more=25.0):
     return r
 
 
+def kill_other_threads():
+    """recovery after a hang: raise SystemExit asynchronously in every other thread of this (harness worker) process — the
+    thrown-away daemon's loop, workers, housekeeper — so that a handler spinning in pure Python stops eating the CPU"""
+    import ctypes
+    me = threading.get_ident()
+    for t in threading.enumerate():
+        if t.ident is not None and t.ident != me and t is not threading.main_thread():
+            ctypes.pythonapi.PyThreadState_SetAsyncExc(ctypes.c_ulong(t.ident), ctypes.py_object(SystemExit))
+    time.sleep(0.05)
+
+
 class Player:
     def __init__(self, cfg, info, tree):
         self.cfg, self.info, self.tree = cfg, info, tree
         self.rec = Recorder(info, tree)
         self.srv = None
         self.opened = 0
+        self.hangs = 0           # unanswered waits seen in this process (see play)
 
     # -- server life cycle
     def start(self):
@@ -597,7 +670,7 @@ class Player:
                 raise ValueError("hook failed")
         self.srv.daemon.clientDisconnect = hook
 
-    def stop(self):
+    def stop(self, kill=False):
         global CURRENT
         threading.settrace(None)
         if self.srv is not None:
@@ -605,6 +678,9 @@ class Player:
                 self.srv.stop()
         self.srv = None
         CURRENT = None
+        self.rec.dispatched.set()
+        if kill:
+            kill_other_threads()
 
     def acct(self):
         a = self.srv.accounting()
@@ -633,7 +709,10 @@ class Player:
 
     # -- one scenario
     def play(self, sc, want_case=True):
-        """returns {"violations": [(sig, what)], "case": coq-case dict or None, "dist": [...], "anomalies": [...]}"""
+        """returns {"violations": [(sig, what)], "case": coq-case dict or None, "dist": [...]}.
+        Watchdog: every wait is bounded; an unanswered witness / fresh client ends the scenario at once, the daemon under test is
+        thrown away (its threads are killed, a spinning handler included) and the next scenario gets a new one; after two hangs
+        in this process the patience shrinks so that a systematic hang costs seconds per case."""
         from Pyro5 import protocol
         if self.srv is None or not self.srv.loop_alive():
             self.stop()
@@ -643,34 +722,48 @@ class Player:
         rec.reset()
         base = self.acct()
         if base != 0:
-            self.stop()
+            self.stop(kill=True)
             self.start()
             srv, rec = self.srv, self.rec
             base = self.acct()
+        impatient = self.hangs >= 2
+        first, more, long = (2.0, 3.0, 3.0) if impatient else (3.0, 12.0, 8.0)
+        stype = self.cfg["server"]
         self.opened = 1
         w = rd.RawClient(srv.port, timeout=3.0)
         w.send(rd.connect_msg("t", "serpent"))
-        m = patient(w)
+        m = patient(w, first, more)
         if not (isinstance(m, dict) and m.get("type") == protocol.MSG_CONNECTOK):
             viol.append(("witness-handshake-failed", "the witness could not connect to a fresh daemon: %r" % (m,)))
+            self.stop(kill=True)
             return {"violations": viol, "case": None, "dist": dist}
         self.settle(expect=1)
         clients, dead = {}, set()
         wseq = [100]
         wlast, wgap = [time.time()], [0.0]
+        stuck = [False]
 
         def wtouch():
             now = time.time()
             wgap[0] = max(wgap[0], now - wlast[0])
             wlast[0] = now
 
+        def noreply(what, r):
+            stuck[0] = True
+            if r == "TIMEOUT":
+                self.hangs += 1
+                viol.append(("daemon-unresponsive:" + stype, "%s was not answered within %.0f s although the connection is open "
+                             "(the thread serving it is blocked or spinning)" % (what, first + more)))
+            else:
+                viol.append(("witness-disconnected:" + stype, "%s got %s instead of a reply" % (what, r)))
+
         def wcall(x):
             wseq[0] = (wseq[0] + 1) % 65536
             wtouch()
             err = w.send(rd.invoke_msg("t", "echo", (x,), seq=wseq[0]))
-            r = patient(w)
+            r = patient(w, first, more)
             if err or not isinstance(r, dict):
-                viol.append(("witness-no-reply", "witness call echo(%d) got %s instead of a reply" % (x, err or r)))
+                noreply("witness call echo(%d)" % x, err or r)
             elif r.get("type") != protocol.MSG_RESULT or r.get("flags", 0) & protocol.FLAGS_EXCEPTION or r.get("seq") != wseq[0] \
                     or r.get("value") != x + 1:
                 viol.append(("witness-wrong-reply", "witness call echo(%d) seq %d answered %r" % (x, wseq[0], {k: r.get(k) for k in ("type", "flags", "seq", "value")})))
@@ -679,19 +772,68 @@ class Player:
             wseq[0] = (wseq[0] + 1) % 65536
             wtouch()
             err = w.send(rd.ping_msg(seq=wseq[0]))
-            r = patient(w)
+            r = patient(w, first, more)
             if err or not isinstance(r, dict):
-                viol.append(("witness-no-reply", "witness ping got %s instead of a reply" % (err or r)))
+                noreply("witness ping", err or r)
             elif r.get("type") != protocol.MSG_PING or r.get("seq") != wseq[0]:
                 viol.append(("witness-wrong-reply", "witness ping seq %d answered %r" % (wseq[0], {k: r.get(k) for k in ("type", "flags", "seq")})))
+
+        def fresh(sig, need_ok, budget):
+            """a new well-behaved client: connect, handshake (+ ping); returns (violations, refusal text or None)"""
+            fv, refusal = [], None
+            try:
+                self.opened += 1
+                f = rd.RawClient(srv.port, timeout=3.0)
+                f.send(rd.connect_msg("t", "serpent"))
+                m = patient(f, first, budget)
+                if not isinstance(m, dict) or m.get("type") not in (protocol.MSG_CONNECTOK, protocol.MSG_CONNECTFAIL):
+                    if m == "TIMEOUT":
+                        self.hangs += 1
+                    fv.append((sig + ":" + stype, "a new client's CONNECT got %r instead of an answer within %.0f s" % (m, first + budget)))
+                elif m.get("type") == protocol.MSG_CONNECTFAIL:
+                    refusal = str(m.get("value"))
+                    if need_ok:
+                        fv.append(("fresh-handshake-failed:" + stype, "a new client's handshake was refused: %r" % (refusal,)))
+                else:
+                    f.send(rd.ping_msg(seq=4))
+                    m2 = patient(f, first, budget)
+                    if not (isinstance(m2, dict) and m2.get("type") == protocol.MSG_PING and m2.get("seq") == 4):
+                        fv.append(("fresh-ping-failed:" + stype, "a new client's ping got %r" % (m2,)))
+                f.close()
+            except OSError as x:
+                fv.append(("fresh-connection-failed:" + stype, "a new client could not connect: %r" % (x,)))
+            return fv, refusal
+
+        def give_up():
+            with contextlib.suppress(Exception):
+                w.close()
+            for c in clients.values():
+                with contextlib.suppress(Exception):
+                    c.close()
+            self.stop(kill=True)
+            return {"violations": viol, "case": None, "dist": dist}
+
         for st in sc["steps"]:
             op = st[0]
-            if not srv.loop_alive():
+            if not srv.loop_alive() or stuck[0]:
                 break
             if op == "wcall":
                 wcall(st[1])
             elif op == "wping":
                 wping()
+            elif op == "arm":
+                rec.arm_handover = True
+            elif op == "stall":
+                # the peers keep their connections open and stay silent; the witness keeps talking (COMMTIMEOUT applies to it too)
+                t_end = time.time() + float(st[1])
+                while time.time() < t_end and not stuck[0] and srv.loop_alive():
+                    wping()
+                    time.sleep(0.3)
+            elif op == "fresh":
+                fv, _ = fresh(st[1] if len(st) > 1 else "new-connection-unanswered", False, more if impatient else 6.0)
+                viol += fv
+                if fv:
+                    stuck[0] = True
             elif op == "open":
                 self.settle(timeout=5.0)
                 try:
@@ -703,8 +845,7 @@ class Player:
                 continue
             elif op == "send":
                 dist.append(st[3] if len(st) > 3 else "send")
-                if clients[st[1]].send(bytes.fromhex(st[2])):
-                    pass
+                clients[st[1]].send(bytes.fromhex(st[2]))
             elif op == "read":
                 r = clients[st[1]].recv_msg()
                 if not isinstance(r, dict):
@@ -721,74 +862,69 @@ class Player:
             elif op == "reset":
                 clients[st[1]].reset()
                 dead.add(st[1])
+        if not srv.loop_alive():
+            # everything else (unanswered new clients, accounting) follows from this
+            viol.append(("request-loop-died:" + stype, "the daemon's request loop ended with %r" % (srv.loop_exception,)))
+            return give_up()
+        if stuck[0]:
+            return give_up()
         for k, c in clients.items():
             if k not in dead:
                 c.close()
         wtouch()
-        if self.cfg.get("timeout") and wgap[0] > 0.4 * self.cfg["timeout"]:
+        if stype == "thread" and self.cfg.get("timeout") and wgap[0] > 0.4 * self.cfg["timeout"]:
             # the machine was so slow that the idle witness may legitimately have hit COMMTIMEOUT: says nothing
             w.close()
-            self.stop()
+            self.stop(kill=True)
             return {"violations": [], "case": None, "dist": dist, "inconclusive": True}
-        settled = self.settle(expect=1, timeout=12.0)
-        alive = srv.loop_alive()
+        self.settle(expect=1, timeout=long)
         a = self.acct()
-        for _ in range(3):
-            if a == 1 or not alive:
+        for _ in range(2):
+            if a == 1 or not srv.loop_alive():
                 break
             time.sleep(0.2)               # a straggler still being served: look again
-            self.settle(expect=1, timeout=6.0)
+            self.settle(expect=1, timeout=3.0)
             a = self.acct()
-        if not alive:
-            # everything else (unanswered new clients, accounting) follows from this
-            viol.append(("request-loop-died:" + self.cfg["server"], "the daemon's request loop ended with %r" % (srv.loop_exception,)))
-            with contextlib.suppress(Exception):
-                w.close()
-            self.stop()
-            return {"violations": viol, "case": None, "dist": dist}
+        if not srv.loop_alive():
+            viol.append(("request-loop-died:" + stype, "the daemon's request loop ended with %r" % (srv.loop_exception,)))
+            return give_up()
         if a != 1:
-            viol.append(("accounting-not-restored:" + self.cfg["server"],
-                         "after the attacking connections ended %s is %d, with only the witness connected (pre-attack value 1)" % (
-                             "Pool.busy" if self.cfg["server"] == "thread" else "the number of selector registrations", a)))
+            if stype == "thread" and a > 1:
+                self.hangs += 1
+                viol.append(("worker-stranded:thread", "after every attacking connection has ended Pool.busy is %d with only the witness "
+                             "connected (pre-attack value 1): %d worker(s) never returned to the pool" % (a, a - 1)))
+            else:
+                viol.append(("accounting-not-restored:" + stype,
+                             "after the attacking connections ended %s is %d, with only the witness connected (pre-attack value 1)" % (
+                                 "Pool.busy" if stype == "thread" else "the number of selector registrations", a)))
+            return give_up()
         # a fresh client (a refusal for lack of workers while a straggler is still served is legitimate: look again)
-        refused_ok = self.cfg["server"] == "thread" and self.cfg.get("pool", 4) <= 1
+        refused_ok = stype == "thread" and self.cfg.get("pool", 4) <= 1
         for attempt in range(4):
-            fv = []
-            try:
-                self.opened += 1
-                f = rd.RawClient(srv.port, timeout=3.0)
-                f.send(rd.connect_msg("t", "serpent"))
-                m = patient(f, more=12.0)
-                if refused_ok:
-                    if not (isinstance(m, dict) and m.get("type") == protocol.MSG_CONNECTFAIL):
-                        fv.append(("fresh-connection-unanswered:" + self.cfg["server"], "a new connection (pool full) got %r instead of a refusal" % (m,)))
-                elif not (isinstance(m, dict) and m.get("type") == protocol.MSG_CONNECTOK):
-                    fv.append(("fresh-handshake-failed:" + self.cfg["server"], "a new client's handshake got %r" % (m if not isinstance(m, dict) else m.get("value"),)))
-                else:
-                    f.send(rd.ping_msg(seq=4))
-                    m2 = patient(f, more=12.0)
-                    if not (isinstance(m2, dict) and m2.get("type") == protocol.MSG_PING and m2.get("seq") == 4):
-                        fv.append(("fresh-ping-failed:" + self.cfg["server"], "a new client's ping got %r" % (m2,)))
-                f.close()
-            except OSError as x:
-                fv.append(("fresh-connection-failed:" + self.cfg["server"], "a new client could not connect: %r" % (x,)))
-            self.settle(expect=1, timeout=6.0)
-            busy_refusal = fv and isinstance(m, dict) and m.get("type") == protocol.MSG_CONNECTFAIL and "no free workers" in str(m.get("value"))
+            fv, refusal = fresh("fresh-connection-unanswered", not refused_ok, more)
+            if refused_ok and not fv and refusal is None:
+                fv.append(("fresh-connection-unanswered:" + stype, "a new connection was served although the only worker is taken"))
+            self.settle(expect=1, timeout=3.0)
+            busy_refusal = bool(fv) and refusal is not None and "no free workers" in refusal
             if not busy_refusal or not srv.loop_alive():
                 break
             time.sleep(0.3)
         viol += fv
+        if any(v[0].startswith("fresh-connection-unanswered") for v in fv):
+            return give_up()
         wcall(4242)
-        self.settle(expect=1, timeout=12.0)
+        if stuck[0]:
+            return give_up()
+        self.settle(expect=1, timeout=long)
         case = None
         if want_case:
             case = self.build_case(srv.loop_alive(), self.acct())
         w.close()
-        ok0 = self.settle(expect=0, timeout=12.0)
+        ok0 = self.settle(expect=0, timeout=long)
         if not ok0 and not viol:
-            viol.append(("accounting-not-restored:" + self.cfg["server"], "after every client has gone the accounting is %d, not 0" % self.acct()))
+            viol.append(("accounting-not-restored:" + stype, "after every client has gone the accounting is %d, not 0" % self.acct()))
         if viol:
-            self.stop()       # next scenario gets a fresh daemon
+            self.stop(kill=True)       # next scenario gets a fresh daemon
         return {"violations": viol, "case": case, "dist": dist}
 
     # -- server-side history -> model input and expected output
